@@ -37,10 +37,12 @@ PLACEMENT = [
     ('structured', dict(T=2), None),
     ('split_two_node', dict(T=4, freq='12h'), 'd'),
     ('split_unequal_intervals', dict(T=5, freq='6h'), 'd'),
+    ('split_first_interval_without_assets', dict(T=6, wins=((2, 6), (2, 6), (3, 6)), two_nodes=False), '2h'),
+    ('split_middle_interval_without_assets', dict(T=6, wins=((0, 2), (0, 2), (4, 6), (5, 6)), two_nodes=False), '2h'),
     ('split_first_asset_starts_inside_interval', dict(T=4, wins=((1, 4), (0, 4), (0, 3)), two_nodes=True), '2h'),
     ('split_first_asset_late_second_interval', dict(T=6, wins=((4, 6), (0, 6)), two_nodes=True), '3h'),
 ]
-SHAPE_OF = dict(two_node_name_contained_in_the_other='two_node', two_node_name_contains_the_other='two_node', two_node_names_not_in_alphabetical_order='two_node', two_node_names_reversed_split='two_node', two_node_discounted_daily='two_node', split_first_asset_starts_inside_interval='windows', split_first_asset_late_second_interval='windows', two_node_window_gap='two_node', windows_gap_two_nodes='windows', split_two_node='two_node', split_unequal_intervals='two_node',
+SHAPE_OF = dict(split_first_interval_without_assets='windows', split_middle_interval_without_assets='windows', two_node_name_contained_in_the_other='two_node', two_node_name_contains_the_other='two_node', two_node_names_not_in_alphabetical_order='two_node', two_node_names_reversed_split='two_node', two_node_discounted_daily='two_node', split_first_asset_starts_inside_interval='windows', split_first_asset_late_second_interval='windows', two_node_window_gap='two_node', windows_gap_two_nodes='windows', split_two_node='two_node', split_unequal_intervals='two_node',
                 late_second_node='late_node')
 INSTANCES = ['two_node', 'contract_storage', 'multicommodity', 'late_node', 'uncoupled', 'coarse',
              'two_node@big', 'scaled@big', 'contract_storage@small', 'orderbook', 'two_node_discounted', 'ext_transport']     # @big / @small: prices of the order 1e5 / 1e-4 (other currencies / units)
